@@ -47,6 +47,6 @@ const (
 )
 
 // Names is an ordered list of all the state names.
-var Names = S{DownloadingFile, FileDownloaded, ProcessingFile, FileProcessed, UploadingFile, FileUploaded}
+var Names = S{DownloadingFile, FileDownloaded, ProcessingFile, FileProcessed, UploadingFile, FileUploaded, am.StateException}
 
 // #endregion
